@@ -66,6 +66,7 @@ type c39Runner struct {
 	outboxed                    map[uint64]bool              // indices the orchestrator saw forwarded
 	delivered                   map[uint64]bool
 	fencedSeen                  bool
+	dropNext                    bool // the next live forward is lost (the outbox row is the only copy)
 }
 
 func newC39Runner() *c39Runner {
@@ -97,10 +98,13 @@ func (r *c39Runner) forward(_ context.Context, target multiraft.SlotID, cmd mult
 	if uint64(target) != c39TgtSlot {
 		return nil
 	}
+	r.outboxed[cmd.Index] = true
+	if r.dropNext {
+		return errors.New("forward dropped")
+	}
 	cp := cmd
 	cp.Data = append([]byte(nil), cmd.Data...)
 	r.fwd[cmd.Index] = cp
-	r.outboxed[cmd.Index] = true
 	return nil
 }
 
@@ -299,7 +303,7 @@ func (r *c39Runner) Step(op string) (out string) {
 	ctx := context.Background()
 	res := ""
 	switch f[0] {
-	case "w": // ordinary write at the source
+	case "w", "wd": // ordinary write at the source (`wd`: its live forward is lost)
 		if len(f) != 3 {
 			return "bad-op"
 		}
@@ -307,7 +311,9 @@ func (r *c39Runner) Step(op string) (out string) {
 		if k == 0 {
 			return "bad-op"
 		}
+		r.dropNext = f[0] == "wd"
 		res = r.applyS(fsm.EncodeUpsertUserCommand(c39User(k, v)))
+		r.dropNext = false
 	case "wt": // ordinary write for the migrating hash slot at the target
 		if len(f) != 3 {
 			return "bad-op"
@@ -350,12 +356,25 @@ func (r *c39Runner) Step(op string) (out string) {
 		}
 		r.snapDone = true
 		res = "ok"
-	case "dl": // deliver forwarded deltas (by source index) to the target in ONE ApplyBatch, in the given order
-		if len(f) < 2 || len(f) > 5 {
+	case "dl", "dlo", "dlm":
+		// dl : deliver live-forwarded deltas (by source index) to the target in ONE ApplyBatch, in the given order
+		// dlo: the same, but the replayer reads the rows from the source's durable outbox
+		// dlm <0|1> …: like dl, with an ordinary command for another hash slot of the target in the same
+		//      batch whose commit-time guard is stale (first / last), so the batch is re-applied one by one
+		args := f[1:]
+		pos := uint64(0)
+		if f[0] == "dlm" {
+			if len(args) < 1 {
+				return "bad-op"
+			}
+			pos = c39Num(args[0], 1)
+			args = args[1:]
+		}
+		if len(args) < 1 || len(args) > 4 {
 			return "bad-op"
 		}
 		var idxs []uint64
-		for _, x := range f[1:] {
+		for _, x := range args {
 			idxs = append(idxs, c39Num(x, 1<<20))
 		}
 		if !r.snapDone {
@@ -364,7 +383,17 @@ func (r *c39Runner) Step(op string) (out string) {
 		}
 		var batch []multiraft.Command
 		for _, i := range idxs {
-			c, ok := r.fwd[i]
+			var c multiraft.Command
+			ok := false
+			if f[0] == "dlo" {
+				rows, err := r.sdb.ListHashSlotMigrationOutbox(ctx, c39HS, c39SrcSlot, c39TgtSlot, i-1, 1)
+				if i > 0 && err == nil && len(rows) == 1 && rows[0].SourceIndex == i {
+					c = multiraft.Command{SlotID: multiraft.SlotID(c39SrcSlot), HashSlot: c39HS, Index: i, Data: rows[0].Data}
+					ok = true
+				}
+			} else {
+				c, ok = r.fwd[i]
+			}
 			if !ok {
 				batch = nil
 				res = "norow"
@@ -376,6 +405,17 @@ func (r *c39Runner) Step(op string) (out string) {
 		}
 		if res == "norow" {
 			break
+		}
+		if f[0] == "dlm" {
+			r.tIdx++
+			stale := multiraft.Command{SlotID: multiraft.SlotID(c39TgtSlot), HashSlot: c39TgtOther, Index: r.tIdx, Term: 1,
+				Data: fsm.EncodeAdvanceChannelRetentionThroughSeqCommand(metadb.ChannelRetentionAdvance{ChannelID: "nochan", ChannelType: 2,
+					ExpectedChannelEpoch: 1, ExpectedLeaderEpoch: 1, ExpectedLeader: 1, RetentionThroughSeq: 5, RetentionUpdatedAtMS: 1})}
+			if pos == 0 {
+				batch = append([]multiraft.Command{stale}, batch...)
+			} else {
+				batch = append(batch, stale)
+			}
 		}
 		res = c39Res(r.t.ApplyBatch(ctx, batch))
 		if !strings.HasPrefix(res, "err") {
@@ -405,13 +445,29 @@ func (r *c39Runner) Step(op string) (out string) {
 		} else {
 			res = "ok"
 		}
+	case "ackc": // the replicated ack command (applyMigrationOutboxAck)
+		if len(f) != 2 {
+			return "bad-op"
+		}
+		i := c39Num(f[1], 1<<20)
+		if !r.delivered[i] {
+			r.sIdx++ // the op always consumes one source log index, so indices stay predictable
+			res = "skip"
+			break
+		}
+		res = r.applyS(fsm.EncodeAckHashSlotMigrationOutboxCommand(c39HS, multiraft.SlotID(c39SrcSlot), multiraft.SlotID(c39TgtSlot), i))
 	case "switch":
 		if len(f) != 1 {
 			return "bad-op"
 		}
+		// the orchestrator switches once the fence is in and every row still in the durable outbox was delivered
 		ready := r.started && r.snapDone && !r.switched && r.fencedSeen
-		for i := range r.outboxed {
-			if !r.delivered[i] {
+		rows, err := r.sdb.ListHashSlotMigrationOutbox(ctx, c39HS, c39SrcSlot, c39TgtSlot, 0, 100000)
+		if err != nil {
+			ready = false
+		}
+		for _, row := range rows {
+			if !r.delivered[row.SourceIndex] {
 				ready = false
 			}
 		}
